@@ -2,6 +2,7 @@ import Model.Ops
 import Spec.Ops
 import Proofs.Lemmas.Ops
 import Proofs.Lemmas.OpsSpec
+import Proofs.Lemmas.OpsCompare
 /-! C03: `<=>` coherence and exactness of `Model.Ops` against `Spec.Ops`, operator by operator. -/
 namespace Proofs.Ops
 open Model.Ops
@@ -11,30 +12,16 @@ variable {F : Type} (P : Prim F)
 
 theorem m1_ne : BitVec.ofInt 64 (-1) ≠ 1#64 ∧ BitVec.ofInt 64 (-1) ≠ 0#64 ∧ (1#64 : BitVec 64) ≠ 0#64 := by decide
 
-theorem cmp3 (p q : Bool) (hasym : p = true → q = false) :
-    ((if p = true then BitVec.ofInt 64 (-1) else if q = true then 1#64 else 0#64) = BitVec.ofInt 64 (-1) ↔ p = true) ∧
-    ((if p = true then BitVec.ofInt 64 (-1) else if q = true then 1#64 else 0#64) = 1#64 ↔ q = true) := by
-  have ⟨h1, h2, h3⟩ := m1_ne
-  cases p <;> cases q <;> simp_all
-
-theorem slt_asymm (x y : BitVec 64) : BitVec.slt x y = true → BitVec.slt y x = false := by
-  simp [BitVec.slt_eq_decide]; omega
-
-theorem spaceship_agrees {T : TruthTable}
-    (h_lt_asymm : ∀ x y : F, P.lt x y = true → P.lt y x = false) (a b : Val F)
-    (hdom : (Spec.Ops.order P a b).isSome = true) :
+/-- `<=>` is −1 exactly when `<` holds and 1 exactly when `>` holds — on **every** operand pair and
+without any hypothesis: the three nodes read the same `data.LooseCompare` result -/
+theorem spaceship_agrees {T : TruthTable} (a b : Val F) :
     (eval P T .cmp false a b = .val (.int (BitVec.ofInt 64 (-1))) ↔ eval P T .lt false a b = .val (.bool true)) ∧
     (eval P T .cmp false a b = .val (.int 1#64) ↔ eval P T .gt false a b = .val (.bool true)) := by
-  cases a <;> cases b <;> simp [Spec.Ops.order, Spec.Ops.toF] at hdom <;>
-    simp only [eval, cmp, Model.Ops.compare, lt, gt, rel, relLt, relGt, asIntI, asFloatI, asString,
-      cmpInt, cmpFloat, cmpStr, Outcome.val.injEq, Val.int.injEq, Val.bool.injEq]
-  · exact cmp3 _ _ (slt_asymm _ _)
-  · exact cmp3 _ _ (h_lt_asymm _ _)
-  · exact cmp3 _ _ (h_lt_asymm _ _)
-  · exact cmp3 _ _ (h_lt_asymm _ _)
-  · exact cmp3 _ _ (strLt_asymm _ _)
-
-
+  have ⟨h1, h2, h3⟩ := m1_ne
+  simp only [eval, cmp, lt, gt, viaCompare]
+  cases looseCompare P T a b with
+  | none => simp
+  | some o => cases o <;> simp [Ord4.toInt, h1, h2, h3, h1.symm, h2.symm, h3.symm]
 
 theorem exact_add {T : TruthTable} (a b : Val F) (r : Res F) (hs : Spec.Ops.eval P .add a b = some r) :
     eval P T .add false a b = r := by
@@ -154,14 +141,19 @@ theorem exact_shr {T : TruthTable} (a b : Val F) (r : Res F) (hs : Spec.Ops.eval
 
 
 
-theorem exact_eqne {T : TruthTable} (hT : wf T = true) (a b : Val F) (r : Res F) :
+theorem exact_eqne {T : TruthTable} (hT : wf T = true) (hF : FloatOrder P) (a b : Val F) (r : Res F) :
     (Spec.Ops.eval P .eq a b = some r → eval P T .eq false a b = r) ∧
     (Spec.Ops.eval P .ne a b = some r → eval P T .ne false a b = r) := by
+  have ha := wf_asBool P hT a
   have hb := wf_asBool P hT b
-  refine ⟨?_, ?_⟩ <;> intro hs <;> cases a <;> cases b <;>
-    simp [Spec.Ops.eval, Spec.Ops.looseEq, Spec.Ops.toF, Spec.Ops.mkBool] at hs <;>
-    subst hs <;>
-    simp [eval, eqv, nev, asIntI, asFloatI, asString, hb, Spec.Ops.truthy, bne]
+  have hf := fun x y => (ordFloat_tests P hF x y).2.2.1
+  have hi := fun x y => (ord3_tests (BitVec.slt x y) (BitVec.slt y x) (slt_asymm' x y)).2.2.1
+  have hs := fun x y => (ord3_tests (strLt x y) (strLt y x) (strLt_asymm x y)).2.2.1
+  refine ⟨?_, ?_⟩ <;> intro hs' <;> cases a <;> cases b <;>
+    simp [Spec.Ops.eval, Spec.Ops.looseEq, Spec.Ops.toF, Spec.Ops.mkBool] at hs' <;>
+    subst hs' <;>
+    simp [eval, eqv, nev, viaCompare, looseCompare, isNullOrBool, ha, hb, Spec.Ops.truthy, bne, hf,
+      ordInt_eq, ordStr_eq, hi, hs, int_eq_test, str_eq_test, ordBool_eq_test]
 
 theorem exact_strict {T : TruthTable} (a b : Val F) (r : Res F) :
     (Spec.Ops.eval P .seq a b = some r → eval P T .seq false a b = r) ∧
@@ -171,24 +163,32 @@ theorem exact_strict {T : TruthTable} (a b : Val F) (r : Res F) :
     subst hs <;>
     simp [eval, seq, sne, strictEq]
 
-theorem exact_rel {T : TruthTable} (a b : Val F) (r : Res F) :
+theorem exact_rel {T : TruthTable} (hF : FloatOrder P) (a b : Val F) (r : Res F) :
     (Spec.Ops.eval P .lt a b = some r → eval P T .lt false a b = r) ∧
     (Spec.Ops.eval P .le a b = some r → eval P T .le false a b = r) ∧
     (Spec.Ops.eval P .gt a b = some r → eval P T .gt false a b = r) ∧
     (Spec.Ops.eval P .ge a b = some r → eval P T .ge false a b = r) := by
-  refine ⟨?_, ?_, ?_, ?_⟩ <;> intro hs <;> cases a <;> cases b <;>
-    simp [Spec.Ops.eval, Spec.Ops.order, Spec.Ops.toF, Spec.Ops.mkBool] at hs <;>
-    subst hs <;>
-    simp [eval, lt, le, gt, ge, rel, relLt, relLe, relGt, relGe, asIntI, asFloatI, asString,
-      BitVec.slt_eq_decide, BitVec.sle_eq_decide]
+  have hf := fun x y => ordFloat_tests P hF x y
+  have hi := fun x y => ord3_tests (BitVec.slt x y) (BitVec.slt y x) (slt_asymm' x y)
+  have hs := fun x y => ord3_tests (strLt x y) (strLt y x) (strLt_asymm x y)
+  refine ⟨?_, ?_, ?_, ?_⟩ <;> intro hs' <;> cases a <;> cases b <;>
+    simp [Spec.Ops.eval, Spec.Ops.order, Spec.Ops.toF, Spec.Ops.mkBool] at hs' <;>
+    subst hs' <;>
+    simp [eval, lt, le, gt, ge, viaCompare, looseCompare, ordInt_eq, ordStr_eq,
+      (hf _ _).1, (hf _ _).2.1, (hf _ _).2.2.2.1, (hf _ _).2.2.2.2.1,
+      (hi _ _).1, (hi _ _).2.1, (hi _ _).2.2.2.1, (hi _ _).2.2.2.2.1,
+      (hs _ _).1, (hs _ _).2.1, (hs _ _).2.2.2.1, (hs _ _).2.2.2.2.1,
+      BitVec.slt_eq_decide]
 
-theorem exact_cmp {T : TruthTable} (a b : Val F) (r : Res F) (hs : Spec.Ops.eval P .cmp a b = some r) :
-    eval P T .cmp false a b = r := by
+theorem exact_cmp {T : TruthTable} (hF : FloatOrder P) (a b : Val F) (r : Res F)
+    (hs : Spec.Ops.eval P .cmp a b = some r) : eval P T .cmp false a b = r := by
+  have hf := fun x y => (ordFloat_tests P hF x y).2.2.2.2.2
+  have hi := fun x y => (ord3_tests (BitVec.slt x y) (BitVec.slt y x) (slt_asymm' x y)).2.2.2.2.2
+  have hs3 := fun x y => (ord3_tests (strLt x y) (strLt y x) (strLt_asymm x y)).2.2.2.2.2
   cases a <;> cases b <;>
     simp [Spec.Ops.eval, Spec.Ops.spaceship, Spec.Ops.order, Spec.Ops.toF] at hs <;>
     subst hs <;>
-    simp [eval, cmp, Model.Ops.compare, cmpInt, cmpFloat, cmpStr, BitVec.slt_eq_decide, Spec.Ops.wrap] <;>
-    (repeat' split) <;> simp_all
+    simp [eval, cmp, looseCompare, ordInt_eq, ordStr_eq, hf, hi, hs3, BitVec.slt_eq_decide, Spec.Ops.wrap]
 
 theorem exact_logic {T : TruthTable} (hT : wf T = true) (a b : Val F) (r : Res F) :
     (Spec.Ops.eval P .land a b = some r → eval P T .land false a b = r) ∧
@@ -221,7 +221,7 @@ theorem exact_un {T : TruthTable} (hT : wf T = true) (op : UnOp) (a : Val F) (r 
 
 
 /-- exactness of every binary operator on the documented domain -/
-theorem exact_bin {T : TruthTable} (hT : wf T = true)
+theorem exact_bin {T : TruthTable} (hT : wf T = true) (hF : FloatOrder P)
     (h_zero_toInt : ∀ z : F, P.eq z P.zero = true → P.toInt z = 0#64)
     (op : BinOp) (a b : Val F) (r : Res F) (hs : Spec.Ops.eval P op a b = some r) :
     eval P T op false a b = r := by
@@ -237,15 +237,15 @@ theorem exact_bin {T : TruthTable} (hT : wf T = true)
   · exact (exact_bit P a b r).2.2 hs
   · exact exact_shl P a b r hs
   · exact exact_shr P a b r hs
-  · exact (exact_eqne P hT a b r).1 hs
-  · exact (exact_eqne P hT a b r).2 hs
+  · exact (exact_eqne P hT hF a b r).1 hs
+  · exact (exact_eqne P hT hF a b r).2 hs
   · exact (exact_strict P a b r).1 hs
   · exact (exact_strict P a b r).2 hs
-  · exact (exact_rel P a b r).1 hs
-  · exact (exact_rel P a b r).2.1 hs
-  · exact (exact_rel P a b r).2.2.1 hs
-  · exact (exact_rel P a b r).2.2.2 hs
-  · exact exact_cmp P a b r hs
+  · exact (exact_rel P hF a b r).1 hs
+  · exact (exact_rel P hF a b r).2.1 hs
+  · exact (exact_rel P hF a b r).2.2.1 hs
+  · exact (exact_rel P hF a b r).2.2.2 hs
+  · exact exact_cmp P hF a b r hs
   · exact (exact_logic P hT a b r).1 hs
   · exact (exact_logic P hT a b r).2 hs
   · exact exact_dot P a b r hs
